@@ -170,12 +170,16 @@ def render(prog, flavour):
     L = list(HDR)
     L += ["class T(Entity):", "    clk = Port.input(Bit)", "    a = Port.input(Bit)", "    b = Port.input(Bit)",
           "    c = Port.input(BitVector[4])", "    x = Port.input(Unsigned[2])", "    o = Port.output(Bit, default=False)",
+          "    w = Port.input(BitVector[4])", "    o2 = Port.output(Bit, default=False)", "    o3 = Port.output(BitVector[4], default='0000')",
           "    def architecture(self):"]
     if flavour == "clocked":
         L.append("        @std.sequential(std.Clock(self.clk))")
     else:
         L.append("        @std.sequential")
     L.append("        def proc():")
+    # run-time indexed read and write: the compiler copies the index into an intermediate that is only read inside the
+    # index expression
+    L += ["            self.o2 <<= self.w[self.x]", "            self.o3[self.x] <<= self.a"]
     L += body
     L.append("")
     return "\n".join(L)
@@ -406,7 +410,7 @@ def analyse(prog, flavour, ret=False):
     except Unsupported as e:
         return {"status": "tool", "what": str(e), "src": src}
     sim = d.sim()
-    sim.set_many(dict(clk=0, a=0, b=0, c=0, x=0))
+    sim.set_many(dict(clk=0, a=0, b=0, c=0, x=0, **({"w": 5} if "w" in sim.ports else {})))
     del sim.PR[:]
     base = sim.snapshot()
     for n, inp in enumerate(ALL_INPUTS):
